@@ -362,9 +362,9 @@ theorem idx_finalizePacket {s s' : St} {k : Bytes} (h4 : Inv04 s) (h : IdxInv s)
         exact IdxInv.setFinalized hD _ rfl (PktOk.congr (s := logRelease (releaseEffect s p).1 p (some p.rollappId) true) rfl rfl
           (PktOk.of_fields hP rfl rfl rfl rfl rfl rfl))
 
-theorem idx_recvPacket {s : St} (c seq ph : Nat) (d : RecvData) (h4 : Inv04 s) (h : IdxInv s) (hph : ph < 2 ^ 64) (hseq : seq < 2 ^ 64) :
-    IdxInv (recvPacket s c seq ph d).1 := by
-  unfold recvPacket
+theorem idx_recvOpen {s : St} (c seq ph : Nat) (d : RecvData) (h4 : Inv04 s) (h : IdxInv s) (hph : ph < 2 ^ 64) (hseq : seq < 2 ^ 64) :
+    IdxInv (recvOpen s c seq ph d).1 := by
+  unfold recvOpen
   split
   · exact h
   · rename_i hc
@@ -412,9 +412,9 @@ theorem idx_recvPacket {s : St} (c seq ph : Nat) (d : RecvData) (h4 : Inv04 s) (
                 rw [f0.packets] at hq
                 exact hnp ⟨q, hq, hst, hu⟩
 
-theorem idx_ackPacket {s s' : St} {c seq ph : Nat} {isTimeout isErr : Bool} (h4 : Inv04 s) (h : IdxInv s)
-    (hph : ph < 2 ^ 64) (hseq : seq < 2 ^ 64) (ha : ackPacket s c seq ph isTimeout isErr = .ok (some s')) : IdxInv s' := by
-  unfold ackPacket at ha
+theorem idx_ackOpen {s s' : St} {c seq ph : Nat} {isTimeout isErr : Bool} (h4 : Inv04 s) (h : IdxInv s)
+    (hph : ph < 2 ^ 64) (hseq : seq < 2 ^ 64) (ha : ackOpen s c seq ph isTimeout isErr = .ok (some s')) : IdxInv s' := by
+  unfold ackOpen at ha
   split at ha
   · cases ha
   · rename_i hc
@@ -488,11 +488,16 @@ theorem idx_ofM {s : St} {m : M St} (h : IdxInv s) (hm : ∀ s', m = .ok s' → 
 
 theorem idx_step {s : St} (o : Op) (hp : BoundedOp o) (h4 : Inv04 s) (h : IdxInv s) : IdxInv (step s o).1 := by
   cases o with
-  | recv c seq ph d => exact idx_recvPacket c seq ph d h4 h hp.1 hp.2
+  | recv c seq ph d =>
+    show IdxInv (recvPacket s c seq ph d).1
+    rcases recvPacket_cases s c seq ph d with e | e <;> rw [e]
+    · exact h
+    · exact idx_recvOpen c seq ph d h4 h hp.1 hp.2
   | send a c d amt =>
     apply idx_ofM h
-    intro s' e
-    unfold sendTransfer at e
+    intro s' e0
+    have e := sendTransfer_ok e0
+    unfold sendOpen at e
     split at e
     · cases e
     · split at e
@@ -507,13 +512,13 @@ theorem idx_step {s : St} (o : Op) (hp : BoundedOp o) (h4 : Inv04 s) (h : IdxInv
     simp only [step]
     split
     · exact h
-    · rename_i s' e; exact idx_ackPacket h4 h hp.1 hp.2 e
+    · rename_i s' e; exact idx_ackOpen h4 h hp.1 hp.2 (ackPacket_ok e)
     · exact h
   | timeout c seq ph =>
     simp only [step]
     split
     · exact h
-    · rename_i s' e; exact idx_ackPacket h4 h hp.1 hp.2 e
+    · rename_i s' e; exact idx_ackOpen h4 h hp.1 hp.2 (ackPacket_ok e)
     · exact h
   | finalize a rid ph t src seq =>
     apply idx_ofM h
@@ -604,6 +609,8 @@ theorem idx_step {s : St} (o : Op) (hp : BoundedOp o) (h4 : Inv04 s) (h : IdxInv
     · intro p hp'; exact (List.mem_filter.mp hp').1
     · exact List.Pairwise.filter _ (InvF.keys h4)
   | block => exact IdxInv.of_frame (s := s) (s' := { s with h := s.h + 1 }) ⟨rfl, rfl, rfl, rfl⟩ h
+  | chanClose c => exact idx_ofM h (fun _ e => IdxInv.of_frame (IFrame.ofD (frame_setChanClosed e)) h)
+  | chanOpen c => exact idx_ofM h (fun _ e => IdxInv.of_frame (IFrame.ofD (frame_setChanClosed e)) h)
 
 theorem idx_run : ∀ (ops : List Op) {s : St}, (∀ o ∈ ops, BoundedOp o) → Inv04 s → IdxInv s → IdxInv (run s ops)
   | [], _, _, _, h => h
